@@ -87,7 +87,19 @@ func decodeRule(w string) aa.Rule {
 	case "hat":
 		return &aa.Hat{Base: b, Name: s(0)}
 	case "profile":
-		return &aa.Profile{Base: b, Header: aa.Header{Name: s(0), Attachments: l(1)}}
+		// flags and extended attributes (k=v words) travel too: Compare/Merge may come to read them
+		attrs := map[string]string{}
+		if len(f) > 3 {
+			for _, kv := range l(3) {
+				k, v, _ := strings.Cut(kv, "=")
+				attrs[k] = v
+			}
+		}
+		var flags []string
+		if len(f) > 2 {
+			flags = l(2)
+		}
+		return &aa.Profile{Base: b, Header: aa.Header{Name: s(0), Attachments: l(1), Flags: flags, Attributes: attrs}}
 	}
 	panic("unknown kind " + kind)
 }
@@ -152,7 +164,12 @@ func encodeRule(r aa.Rule) string {
 	case *aa.Hat:
 		b, f = r.Base, []string{S(r.Name)}
 	case *aa.Profile:
-		b, f = r.Base, []string{S(r.Name), L(r.Attachments)}
+		at := []string{}
+		for k, v := range r.Attributes {
+			at = append(at, k+"="+v)
+		}
+		sortStrings(at)
+		b, f = r.Base, []string{S(r.Name), L(r.Attachments), L(r.Flags), L(at)}
 	default:
 		panic(fmt.Sprintf("unknown rule type %T", r))
 	}
